@@ -83,7 +83,8 @@ static void runInContext(dispenso::ThreadPool& pool, const Spec& s, long& inflig
       ts.wait();
       if (!s.wait) inflightAtReturn = g_inflight.load(std::memory_order_relaxed);
     }
-    if (s.api == 1 && states.empty()) {
+    // (an empty range returns before any state is created; nothing executes, so nothing is claimed)
+    if (s.api == 1 && s.end > s.start && states.empty()) {
       vrt::violation("states container empty after stateful parallel_for", J(), "states-empty", "C14");
     }
   };
